@@ -727,6 +727,42 @@ func (c *EvalCtx) evalCall(e *Expr) *V {
 			c.fail("ev_a(i, j): j must be a literal")
 		}
 		return vInt(sSel(st.comp(fmt.Sprintf("ev.a%d", e.Args[1].Int), 1, "Int"), c.intOf(e.Args[0])), nil)
+	case "calls":
+		// calls("Iface.Method"): number of invocations of that interface method (or "fn:Type.field") so far
+		argc(1)
+		if e.Args[0].Op != "str" {
+			c.fail("calls(\"Iface.Method\")")
+		}
+		nm := e.Args[0].Str
+		if strings.Count(nm, ".") == 1 && !strings.HasPrefix(nm, "fn:") {
+			nm = c.pkg.Name() + "." + nm
+		}
+		k := "call:" + nm
+		if strings.HasPrefix(e.Args[0].Str, "fn:") {
+			k = "callfn:" + strings.TrimPrefix(e.Args[0].Str, "fn:")
+		}
+		return vInt(sSel(st.comp("ncall", 1, "Int"), eng.strID(k)), types.Typ[types.Int])
+	case "cbfree":
+		// no lock declared callback_free is held
+		argc(0)
+		held := st.comp("held", 1, "Int")
+		var cs []string
+		for _, pp := range sortedKeys(eng.contracts) {
+			set := eng.contracts[pp]
+			for _, tname := range sortedKeys(set.Types) {
+				td := set.Types[tname]
+				for _, lf := range sortedKeys(td.CallbackFree) {
+					o := c.run.typeByName(pp, tname)
+					if o == nil {
+						continue
+					}
+					_ = c.run.fa(o, lf, "0")
+					id := eng.faIDs[mangle("fa:"+c.run.tn(o)+"."+lf)]
+					cs = append(cs, fmt.Sprintf("(forall ((l Int)) (! (=> (= (objkind l) %d) (= (select %s l) 0)) :pattern ((select %s l))))", id, held, held))
+				}
+			}
+		}
+		return vBool(sAnd(cs...))
 	case "tagof":
 		argc(1)
 		a := c.eval(e.Args[0])
